@@ -14,6 +14,20 @@ PROPS = {
         "design_ref": "§6 C14",
         "technique": "Lean 4 proof: parser ↔ inductive RFC 1035 §4.1.4 relation (sound+complete, no panic, termination); model tied to src/name/wire.rs by differential correspondence incl. exhaustive ≤5-octet buffers",
     },
+    "C32": {
+        "groups": ["snapshot"],
+        "design_ref": "§6 C32",
+        "technique": "Lean 4 proof: nondeterministic transition system (any number of handlers and swappers, every interleaving) with an inductive invariant: each response = f c k req for ONE catalog and ONE key set, each current at some instant of the handling window (linearizable reads); handlers started after set_catalog g returned use g. Structural premise 'one read per message' extracted from src/server/*.rs on every run; generation-marker stress with OS threads validated against the model's admissible set",
+        "level_text": "Theorems (all interleavings, unbounded handlers/swappers) about a Lean 4 model of the RwLock<Arc<_>> snapshot discipline; partial with respect to the real runtime: std::sync::RwLock atomicity, Arc immutability and the memory model are assumed, and the code is tied to the model by (a) the extractor's read counts (a second read of the catalog/key cell breaks the build of C32_structural_premise) and (b) a stress run on real OS threads whose every response is checked against the model's admissible set.",
+        "assumptions": [
+            "std::sync::RwLock: a read returns the value of the latest completed write (atomic cell); Arc<C> contents are immutable (no interior mutability in Catalog/TsigKeyMap)",
+            "the response is a function of (catalog snapshot, key-set snapshot, request, clock): handle_message consults no other mutable server state that a swap changes (checked structurally: self.catalog()/self.tsig_keys() occur once each; RRL state is outside this property)",
+            "stress windows: SeqCst atomics published before/after each swap give a superset of the generations current during a request; OS scheduling decides which interleavings are exercised (measured, not exhaustive)",
+        ],
+        "evidence_notes": [
+            "snapobs cases: one per response observed under concurrent swaps (impl column is always ok: the observation is the recorded input); model column = admissible under some interleaving (C32_window_admits), spec column = single snapshot & not stale",
+        ],
+    },
 }
 
 TRUSTED_BASE = [
